@@ -202,13 +202,25 @@ def r1_flag_agreement(run, w):
   ok = False
   if dels:
     (dn, dc) = dels[0]
-    g = H.guards_of(wr.node, _stmt_of(wr.node, dc))
-    tests = [t for (t, p) in g if p is True]
-    cmp_ok = any(isinstance(t, ast.Compare) and isinstance(t.ops[0], ast.NotEq) and
-                 "type_obj" in text(t) and ("%s.grist_type" % ctx.method_name) in text(t)
-                 for t in tests)
+    def key(e):
+      e2 = H.inline(wflow, e)
+      if isinstance(e2, ast.Compare) and len(e2.ops) == 1 and \
+          isinstance(e2.ops[0], (ast.Eq, ast.NotEq, ast.Is, ast.IsNot)):
+        sides = [text(e2.left), text(e2.comparators[0])]
+        if any("type_obj" in x for x in sides) and \
+            any(x == "type(%s.grist_type)" % ctx.method_name for x in sides):
+          a = H.f_atom("same-kind")
+          return a if isinstance(e2.ops[0], (ast.Eq, ast.Is)) else H.f_not(a)
+      if isinstance(e2, ast.Call) and wr.name(e2.func) == "self.has_column":
+        return "exists"
+      return None
+    actual = H.Conditions(wr, wflow, key).of_stmt(_stmt_of(wr.node, dc))
+    want = H.f_and(H.f_atom("exists"), H.f_not(H.f_atom("same-kind")))
     crn = wflow.node_of(cr)
-    ok = cmp_ok and all(p is True for (t, p) in g) and \
+    # whenever the existing helper column is of the other kind it is deleted (before the new one
+    # is created), and no other condition prevents that
+    ok = H.f_equivalent(H.f_or(H.f_not(want), actual), H.F_TRUE) and \
+        "same-kind" in H.f_atoms(actual) and \
         wr.cfg.reach_after({dn.id}) >= {crn} and dn.id not in wr.cfg.reach_after({crn})
   run.ob(R1, wr.qualname, "if type(<existing helper>.type_obj) != type(%s.grist_type): "
          "self.delete_column(...)" % ctx.method_name, "when regrouping switches between the "
@@ -562,16 +574,25 @@ def r3_row_creation(run, w):
   run.ob(R3, la.qualname, "record = lookup_one_record(**%s) ... AddRecord(self.table_id, None, %s)"
          % (kw, kw), "the row is added with exactly the key that was just looked up", ok,
          fi=la.fi)
-  g = H.guards_of(la.node, _stmt_of(la.node, adds[0][1]))
-  ok = len(g) == 1 and g[0][1] is True and bool(rec_var) and \
-      _conj_has(g[0][0], lambda p: isinstance(p, ast.UnaryOp) and isinstance(p.op, ast.Not) and
-                text(p.operand) == rec_var[0] + "._row_id") and \
-      _is_triggered_test(g[0][0], "self.table_id")
+  laflow = H.Flow(la)
+  def la_key(e):
+    e2 = H.inline(laflow, e)
+    if isinstance(e2, ast.Attribute) and e2.attr == "_row_id" and \
+        text(e2.value) == text(H.inline(laflow, look[0][1])):
+      return "has-row"
+    if isinstance(e2, ast.Call) and endswith(la.name(e2.func) or dotted(e2.func),
+                                             "is_triggered_by_table_action") and \
+        [text(a) for a in e2.args] == ["self.table_id"]:
+      return "triggered-by-own-table"
+    return None
+  actual = H.Conditions(la, laflow, la_key).of_stmt(_stmt_of(la.node, adds[0][1]))
+  expected = H.f_and(H.f_not(H.f_atom("has-row")), H.f_not(H.f_atom("triggered-by-own-table")))
+  ok = H.f_equivalent(actual, expected)
   run.ob(R3, la.qualname, "if not record._row_id and not is_triggered_by_table_action("
          "self.table_id): AddRecord", "a row is added only when the key has no row yet, and not "
          "while the triggering doc action is itself on this table (its rows are not all indexed "
          "yet, a second row for the same key would result)", ok,
-         witness="; ".join(short(t) for (t, p) in g), fi=la.fi)
+         witness="added when " + H.f_show(actual), fi=la.fi)
   # list branch
   ld = ctx.list_def
   rec = ld.args.args[0].arg
@@ -621,48 +642,58 @@ def r3_row_creation(run, w):
   ok = False
   add_guard_ok = False
   if pl is not None:
+    from ..index import FuncInfo
+    from ..fn import Fn
+    lfn = Fn(w, FuncInfo(wr.fi.module, wr.fi.cls, ld, wr.qualname + "." + ld.name, wr.fi))
+    lflow = H.Flow(lfn)
     tv = text(pl.target)
-    dicts = [s for s in pl.body if isinstance(s, ast.Assign) and isinstance(s.value, ast.Call) and
-             dotted(s.value.func) == "dict" and len(s.value.args) == 1 and
-             isinstance(s.value.args[0], ast.Call) and dotted(s.value.args[0].func) == "zip" and
-             [text(a) for a in s.value.args[0].args] == [ctx.p_groupby, tv]]
-    if len(dicts) == 1:
-      dv = text(dicts[0].targets[0])
-      looks = [s for s in pl.body if isinstance(s, ast.Assign) and
-               isinstance(s.value, ast.Attribute) and s.value.attr == "_row_id" and
-               isinstance(s.value.value, ast.Call) and
-               text(s.value.value.func) == ctx.p_sum + ".lookup_one_record" and
-               [text(k.value) for k in s.value.value.keywords if k.arg is None] == [dv]]
-      ifs = [s for s in pl.body if isinstance(s, ast.If)]
-      if len(looks) == 1 and len(ifs) == 1 and text(ifs[0].test) == text(looks[0].targets[0]) \
-          and pl.body.index(looks[0]) < pl.body.index(ifs[0]):
-        rid = text(looks[0].targets[0])
-        found = any(isinstance(c, ast.Call) and isinstance(c.func, ast.Attribute) and
-                    c.func.attr == "append" and [text(a) for a in c.args] == [rid]
-                    for s in ifs[0].body for c in ast.walk(s))
-        queued_vals = [s for s in ifs[0].orelse if isinstance(s, ast.For) and
-                       text(s.iter) == dv + ".items()"]
-        queued_ids = [c for s in ifs[0].orelse for c in ast.walk(s)
-                      if isinstance(c, ast.Call) and isinstance(c.func, ast.Attribute) and
-                      c.func.attr == "append" and len(c.args) == 1 and
-                      isinstance(c.args[0], ast.Constant) and c.args[0].value is None]
-        ok = found and len(queued_vals) == 1 and len(queued_ids) == 1
-        if ok:
-          NEW = text(queued_ids[0].func.value)
-          qv = queued_vals[0]
-          store = [c for c in ast.walk(qv) if isinstance(c, ast.Call) and
-                   isinstance(c.func, ast.Attribute) and c.func.attr == "append" and
-                   isinstance(c.func.value, ast.Call) and
-                   isinstance(c.func.value.func, ast.Attribute) and
-                   c.func.value.func.attr == "setdefault"]
-          TOADD = text(store[0].func.value.func.value) if store else None
-          for c in [x for x in ast.walk(ld) if isinstance(x, ast.Call) and
-                    endswith(dotted(x.func), "user_actions.BulkAddRecord")]:
-            g = H.guards_of(ld, _stmt_of(ld, c))
-            add_guard_ok = [text(a) for a in c.args] == [ctx.p_sum + ".table_id", NEW, TOADD] \
-                and len(g) == 1 and g[0][1] is True and \
-                _conj_has(g[0][0], lambda p: text(p) == NEW) and \
-                _is_triggered_test(g[0][0], ctx.p_sum + ".table_id")
+    linl = lambda e: text(H.inline(lflow, e))
+    DICT_T = "dict(zip(%s, %s))" % (ctx.p_groupby, tv)
+    RID_T = "%s.lookup_one_record(**%s)._row_id" % (ctx.p_sum, DICT_T)
+    def is_rid(e):
+      return linl(e) == RID_T
+    def lkey(e):
+      if is_rid(e):
+        return "has-row"
+      e2 = H.inline(lflow, e)
+      if isinstance(e2, ast.Call) and endswith(dotted(e2.func), "is_triggered_by_table_action") \
+          and [text(a) for a in e2.args] == [ctx.p_sum + ".table_id"]:
+        return "triggered-by-summary-table"
+      return None
+    lcond = H.Conditions(lfn, lflow, lkey)
+    has_row = H.f_atom("has-row")
+    in_pl = lambda c: any(x is c for b in pl.body for x in ast.walk(b))
+    appends = [c for c in calls_in(pl.body) if isinstance(c.func, ast.Attribute) and
+               c.func.attr == "append" and len(c.args) == 1]
+    found = [c for c in appends if is_rid(c.args[0]) and
+             H.f_equivalent(lcond.of_stmt(_stmt_of(ld, c), scope=pl), has_row)]
+    queued_ids = [c for c in appends if isinstance(c.args[0], ast.Constant) and
+                  c.args[0].value is None and
+                  H.f_equivalent(lcond.of_stmt(_stmt_of(ld, c), scope=pl), H.f_not(has_row))]
+    queued_vals = [s_ for s_ in walk_no_nested(pl) if isinstance(s_, ast.For) and s_ is not pl and
+                   linl(s_.iter) == DICT_T + ".items()" and
+                   H.f_equivalent(lcond.of_stmt(s_, scope=pl), H.f_not(has_row))]
+    ok = len(found) == 1 and len(queued_vals) == 1 and len(queued_ids) == 1
+    if ok:
+      NEW = text(queued_ids[0].func.value)
+      qv = queued_vals[0]
+      store = [c for c in ast.walk(qv) if isinstance(c, ast.Call) and
+               isinstance(c.func, ast.Attribute) and c.func.attr == "append" and
+               isinstance(c.func.value, ast.Call) and
+               isinstance(c.func.value.func, ast.Attribute) and
+               c.func.value.func.attr == "setdefault"]
+      TOADD = text(store[0].func.value.func.value) if store else None
+      def akey(e):
+        if isinstance(e, ast.Name) and e.id == NEW:
+          return "queued"
+        return lkey(e)
+      acond = H.Conditions(lfn, lflow, akey)
+      for c in [x for x in ast.walk(ld) if isinstance(x, ast.Call) and
+                endswith(dotted(x.func), "user_actions.BulkAddRecord")]:
+        actual = acond.of_stmt(_stmt_of(ld, c))
+        want = H.f_and(H.f_atom("queued"), H.f_not(H.f_atom("triggered-by-summary-table")))
+        add_guard_ok = [text(a) for a in c.args] == [ctx.p_sum + ".table_id", NEW, TOADD] \
+            and H.f_equivalent(actual, want)
   run.ob(R3, wr.qualname, "row_id = %s.lookup_one_record(**values_dict)._row_id; if row_id: keep "
          "else: queue" % ctx.p_sum, "each key is looked up first; only keys without a row are "
          "queued for creation, each with its full key", ok, fi=wr.fi, node=pl or ld)
@@ -706,17 +737,22 @@ def r4_auto_remove(run, w):
   # and the group returned is the look-up result
   sa = w.fn("docmodel.DocModel.setAutoRemove")
   ps = sa.fi.params()
-  ifs = [s for s in sa.node.body if isinstance(s, ast.If) and text(s.test) == ps[2]]
-  ok = False
-  SET = None
-  if len(ifs) == 1:
-    a = [c for s in ifs[0].body for c in calls_in(s) if isinstance(c.func, ast.Attribute) and
-         c.func.attr == "add" and [text(x) for x in c.args] == [ps[1]]]
-    d = [c for s in ifs[0].orelse for c in calls_in(s) if isinstance(c.func, ast.Attribute) and
-         c.func.attr in ("discard",) and [text(x) for x in c.args] == [ps[1]]]
-    ok = len(a) == 1 and len(d) == 1 and text(a[0].func.value) == text(d[0].func.value) and \
-        H.is_self_attr(a[0].func.value)
-    SET = a[0].func.value.attr if ok else None
+  saflow = H.Flow(sa)
+  flag = H.f_atom("flag")
+  sacond = H.Conditions(sa, saflow, lambda e: "flag" if text(H.inline(saflow, e)) == ps[2]
+                        else None)
+  marks = [(c, sa.name(c.func.value)) for c in calls_in(sa.node)
+           if isinstance(c.func, ast.Attribute) and c.func.attr in ("add", "discard", "remove")
+           and [text(x) for x in c.args] == [ps[1]]]
+  a = [(c, r) for (c, r) in marks if c.func.attr == "add"]
+  d = [(c, r) for (c, r) in marks if c.func.attr == "discard"]
+  ok = len(a) == 1 and len(d) == 1 and a[0][1] == d[0][1] and a[0][1] is not None and \
+      a[0][1].startswith("self.") and a[0][1].count(".") == 1 and not sa.node.body == []
+  SET = a[0][1].split(".")[1] if ok else None
+  if ok:
+    ok = H.f_equivalent(sacond.of_stmt(_stmt_of(sa.node, a[0][0])), flag) and \
+        H.f_equivalent(sacond.of_stmt(_stmt_of(sa.node, d[0][0])), H.f_not(flag)) and \
+        not H.Flow(sa).du.defs.get(ps[2])
   run.ob(R4, sa.qualname, "if %s: self.%s.add(%s) else: self.%s.discard(%s)"
          % (ps[2], SET, ps[1], SET, ps[1]), "a true flag marks the record, a false flag un-marks "
          "it (a group that is non-empty again keeps its row)", ok, fi=sa.fi)
@@ -743,10 +779,12 @@ def r4_auto_remove(run, w):
   run.ob(R4, ap.qualname, "snapshot -> self.%s.clear() -> self.remove(snapshot)" % SET,
          "the set is emptied after the snapshot and before the removals run, so marks made by "
          "the removals' own recalculation survive for the next round", ok, fi=ap.fi)
-  rets = H.returns_of(ap.node)
-  ok = len(rets) == 1 and rets[0].value is not None
+  cases = [c for c in H.return_cases(ap.node)]
+  ok = len(cases) == 1 and cases[0].value is not None
   if ok:
-    v = rets[0].value
+    retn = [m.id for m in cfg.nodes if m.stmt is cases[0].stmt][0]
+    snapname = (rc.args[0].id,) if isinstance(rc.args[0], ast.Name) else ()
+    v = H.inline(flow, cases[0].value, retn, stop=snapname)
     inner = v.args[0] if isinstance(v, ast.Call) and dotted(v.func) == "bool" and \
         len(v.args) == 1 else v
     if isinstance(inner, ast.Compare) and len(inner.ops) == 1 and \
@@ -755,8 +793,12 @@ def r4_auto_remove(run, w):
       inner = inner.left
     if isinstance(inner, ast.Call) and dotted(inner.func) == "len" and len(inner.args) == 1:
       inner = inner.args[0]
-    ok = isinstance(inner, ast.Name) and isinstance(rc.args[0], ast.Name) and \
-        inner.id == rc.args[0].id
+    # ... of the very list of records that was removed
+    if snapname:
+      ok = isinstance(inner, ast.Name) and inner.id == snapname[0] and \
+          flow.reaching(inner.id, retn)[0] == flow.reaching(inner.id, rn.id)[0]
+    else:
+      ok = False      # the snapshot has no name: the result cannot be about the removed list
   run.ob(R4, ap.qualname, "return bool(<removed records>)", "the caller learns whether anything "
          "was removed (and hence whether another recalculation round is needed)", ok, fi=ap.fi)
 
@@ -890,6 +932,12 @@ VARIANTS = [
       self._auto_remove_set.discard(record)""",
    """    if yes_or_no:
       self._auto_remove_set.add(record)""", "C12-R4"),
+  ("auto-remove-result-from-cleared-set", DM,
+   "    return bool(gone_records)", "    return bool(self._auto_remove_set)", "C12-R4"),
+  ("add-guard-or-instead-of-and", T,
+   "    if not record._row_id and not self._engine.is_triggered_by_table_action(self.table_id):",
+   "    if not record._row_id or not self._engine.is_triggered_by_table_action(self.table_id):",
+   "C12-R3"),
   ("auto-remove-clear-after-remove", DM,
    """    self._auto_remove_set.clear()
     # setAutoRemove is called by formulas, notably summary tables, and shouldn't be blocked by ACL.
